@@ -6,9 +6,13 @@ use sea_query::*;
 pub fn cond(s: &S) -> Condition {
     assert!(s.head() == "cond");
     let l = s.args();
-    let mut c = match l[0].atom() {
-        "any" => Condition::any(),
-        "all" => Condition::all(),
+    // Cond::any() / Cond::all() or the any![] / all![] macros with no member, for part of the cases
+    let mac = exprs::shash(s) % 2 == 1;
+    let mut c = match (l[0].atom(), mac) {
+        ("any", false) => Condition::any(),
+        ("all", false) => Condition::all(),
+        ("any", true) => sea_query::any![],
+        ("all", true) => sea_query::all![],
         _ => panic!("cond type"),
     };
     for op in &l[1..] {
